@@ -109,6 +109,19 @@ CLAIMS.update({
    technique='contract-based deductive verification: stage contracts + inverse lemmas (loop invariants over symbolic byte arrays, z3); bounded reference-decoder stand-in for the composition',
    design='4/C01'),
 })
+CLAIMS.update({
+ 'C14': dict(
+   category='proof',
+   text='Deductive core: encode() is symbolically executed over the product of documented option domains incl. boundary / malformed values '
+        '(6 error x 11 version x 4 mode x 8 mask x 3 micro x 2 eci spellings) with symbolic single-part content of any length: only ValueError escapes, '
+        'invalid or excluded combinations are always refused, accepted calls hand _encode a version in range, a level defined for it, a mask valid for the CHOSEN '
+        'symbol kind, ECI only for QR; alternative spellings reach the stages with identical parameters; encode_sequence refusals and result counts on concrete '
+        'contents with the stages summarised. The no-exception clauses of the stage contracts (C01/C03/C13/...) cover the library below _encode. '
+        'BOUNDED (labelled): serialiser refusal of malformed colours / scales / borders / kinds for 12 formats and the command line exit status on enumerated arguments.',
+   note='Trusted: pyvc + z3 and the contracts of find_version, prepare_data/make_segment, _encode used as summaries. Bounded clauses are enumerations of malformed values, not all values.',
+   technique='contract-based deductive verification of the encoder entry points over enumerated option domains x symbolic content; bounded run-time contracts for serialiser arguments and CLI',
+   design='4/C14'),
+})
 NOT_YET = {
 }
 ALL = ['C%02d' % i for i in range(1, 17)]
